@@ -318,6 +318,9 @@ func runAssignTaintRule(c *Ctx, rule string, minFns int) {
 
 var reflectViewMethods = map[string]bool{"Bytes": true, "Slice": true, "Slice3": true, "Index": true, "Elem": true, "Field": true, "UnsafePointer": true, "Pointer": true, "Addr": true, "UnsafeAddr": true}
 
+// packages whose decoders reuse the storage of the value they decode into
+var mergingDecoderPkgs = map[string]bool{"encoding/json": true, "encoding/xml": true, "encoding/gob": true, "encoding/binary": true, "encoding/asn1": true}
+
 func runAssignInPlaceRule(c *Ctx, rule string, minFns int) {
 	p := c.P
 	n := 0
@@ -396,7 +399,7 @@ func inPlaceWrites(p *Prog, fn *ssa.Function, dst *ssa.Parameter, depth int) []s
 		}
 		for _, r := range *refs {
 			switch x := r.(type) {
-			case *ssa.Phi, *ssa.Slice, *ssa.ChangeType, *ssa.Convert, *ssa.SliceToArrayPointer:
+			case *ssa.Phi, *ssa.Slice, *ssa.ChangeType, *ssa.Convert, *ssa.SliceToArrayPointer, *ssa.MakeInterface:
 				if !isRoot {
 					push(x.(ssa.Value))
 				}
@@ -422,6 +425,9 @@ func inPlaceWrites(p *Prog, fn *ssa.Function, dst *ssa.Parameter, depth int) []s
 				if name, ok := isRVMethod(x); ok && len(cc.Args) > 0 && cc.Args[0] == v {
 					if reflectViewMethods[name] && x.Value() != nil {
 						push(x.Value())
+					} else if name == "Interface" && !isRoot && x.Value() != nil {
+						// the pointer obtained by Addr() wrapped for a decoder
+						push(x.Value())
 					} else if strings.HasPrefix(name, "Set") && !isRoot {
 						report(x, "reflect.Value."+name+" is applied to a view of the destination")
 					}
@@ -433,6 +439,15 @@ func inPlaceWrites(p *Prog, fn *ssa.Function, dst *ssa.Parameter, depth int) []s
 				}
 				if isRoot {
 					continue
+				}
+				// a decoder of the standard library merges into what it is given
+				// (encoding/json reuses slices, keeps maps and untouched fields)
+				if callee := cc.StaticCallee(); callee != nil && fnPkg(callee) != nil && mergingDecoderPkgs[fnPkg(callee).Path()] {
+					switch fnName(callee) {
+					case "Unmarshal", "Decode", "DecodeValue", "DecodeElement", "Read":
+						report(x, fnPkg(callee).Path()+"."+fnName(callee)+" decodes into a view of the destination, reusing the slices, maps and fields it finds there")
+						continue
+					}
 				}
 				// a view handed on as the destination of another assignment
 				nm := ""
